@@ -78,8 +78,9 @@ CLAIMED = {
          'with one behaviour per abstract state and sequence of (call kind, clear flag) - path coverage; action properties '
          'LoadYieldsFile and ClearModelClears.',
     note='Known findings D08, D23, D40 matched against exact predictions; D09 class excluded by constraint with pinned reproducers; '
-         'default backend; universe of 3 operators / 4 node templates / 3 circuits; histories <= 2 exhaustive + sampled to depth 4 '
-         '(quick), <= 3 exhaustive + depth 6 (thorough).',
+         'default backend; universe of 4 operators / 6 node templates / 6 circuits (incl. a YAML-loaded and two derived ones); '
+         'histories <= 2 exhaustive (quick: restricted flag combinations, two-call histories sampled under a cap) + random '
+         'histories of depth 4 (quick) / 6 (thorough) + the targeted deep explorations (YAML circuit depth 6, derived circuit depth 4).',
     technique='TLA+ API-level state machine with caches, TLC exhaustive over call histories, replay into one process per history',
     ref='6/C13'),
  'C14': dict(
